@@ -652,6 +652,62 @@ def fam_encode_paths(rng, n, prefix):
     return out
 
 
+# ---------- composition-offset boundaries (C16/C03/C04): pts - dts around +-2^31 ticks ----------
+def fam_cts_bounds(rng, n, prefix):
+    out = []
+    offs = [2**31 - 2, 2**31 - 1, 2**31, 2**31 + 1, -(2**31) - 1, -(2**31), -(2**31) + 1, 2**31 + 90000, -(2**31) - 90000,
+            0, 1, -1, 2**30, -(2**30)]
+    for i in range(n):
+        cfg = rand_cfg(rng, audio=rng.choice(["none", "none", "aac-lc"]), dims=(640, 480), meta=0)
+        codec = cfg["codec"]
+        c = Case("%s%d" % (prefix, i), "mux")
+        emit_cfg(c, cfg, rng)
+        base = 2**31 + 90000 * rng.range(1, 5)
+        first = rng.chance(1, 3)
+        off0 = rng.choice(offs) if first else 0
+        c.o("wvd", fb((base + off0) / 90000.0), fb(base / 90000.0), hx(video_key(rng, codec)), 1)
+        d = base
+        for k in range(rng.range(1, 4)):
+            d += rng.choice([3000, 3003, 1, 90000])
+            off = rng.choice(offs) if rng.chance(2, 3) else rng.choice([0, 3000, 6000])
+            c.o("wvd", fb((d + off) / 90000.0), fb(d / 90000.0), hx(video_delta(rng, codec)), 0)
+        if has_audio(cfg):
+            c.o("wa", fb(base / 90000.0), hx(audio_frame(rng, cfg["audio"])))
+        c.o("fin", 0)
+        out.append(c)
+    return out
+
+
+# ---------- timestamps at the top of the tick range (C12/C06/C04/C16) ----------
+def fam_extreme_ts(rng, n, prefix):
+    top = 2**64 / 90000.0
+    vals = [204963823041217.0, 204963823041218.0, 204963823041216.0, 204963823041200.0, top, top * 1.0000001, top * 0.9999999,
+            top - 40000.0, 1e14, 1e15, 1.8e19, 1e300, 2**63 / 90000.0, 2**63 / 90000.0 + 1, 2**53 / 90000.0, 2**52 / 90000.0,
+            2**32 / 90000.0, 4.5e15, 0.0]
+    out = []
+    for i in range(n):
+        cfg = rand_cfg(rng, audio=rng.choice(["none", "aac-lc", "opus"]), dims=(640, 480), meta=0)
+        codec = cfg["codec"]
+        c = Case("%s%d" % (prefix, i), "mux")
+        emit_cfg(c, cfg, rng)
+        ts = sorted(rng.choice(vals) for _ in range(rng.range(2, 4)))
+        if rng.chance(1, 4):
+            ts = [rng.choice(vals)] + ts
+        key = True
+        for t in ts:
+            if rng.chance(1, 4):
+                dt = rng.choice(vals)
+                c.o("wvd", fb(t), fb(min(t, dt)), hx(video_key(rng, codec) if key else video_delta(rng, codec)), 1 if key else 0)
+            else:
+                c.o("wv", fb(t), hx(video_key(rng, codec) if key else video_delta(rng, codec)), 1 if key else 0)
+            key = False
+            if has_audio(cfg) and rng.chance(2, 3):
+                c.o("wa", fb(t), hx(audio_frame(rng, cfg["audio"])))
+        c.o("fin", rng.choice([0, 0, 1, 3]))
+        out.append(c)
+    return out
+
+
 # ---------- ADTS frame-length boundaries (C01/C14/C04): every bit of the 13-bit length ----------
 def fam_adts_lengths(rng, n, prefix):
     out = []
